@@ -28,9 +28,9 @@ CHECKS = {
         text="Seeded search over histories of set_backend / has_backend / hash / verify / all-backend cross-checks on the nine multi-backend "
              "hashers and their ldap_/django_ wrappers, each run in a fresh forked process so that 'no backend loaded yet' is part of the state. "
              "The real crypt(3) and the real bcrypt wheel sit behind proxies that inject NULL / error-token / OSError / bytes / damaged answers, "
-             "capability loss and import failure. Oracle: one outcome per (hasher, secret, settings) over the whole history whatever backend is "
+             "capability loss, import failure and missing distribution metadata (a vendored bcrypt). Oracle: one outcome per (hasher, secret, settings) over the whole history whatever backend is "
              "active (incl. non-UTF-8, NUL, 72/73/255/512-byte secrets); a backend reported available is selectable and works; has_backend is a "
-             "dry run; failed switches change nothing; crypt(3) failure falls back transparently for the six crypt-family formats.",
+             "dry run and passlib.registry.has_backend(name or object, backend, safe=) gives the handler's answer; failed switches change nothing; crypt(3) failure falls back transparently for the six crypt-family formats.",
         note="Trusted: libxcrypt and the bcrypt wheel as mutual references (no third implementation). Minimum costs only. Known findings F12a/F12b "
              "(bcrypt os_crypt has no fallback) are listed in known_findings.json. Digests under *damaged* crypt answers are not judged (outside the statement).",
         design_ref="DESIGN.md section 4, C03"),
@@ -43,7 +43,7 @@ CHECKS = {
              "answer (attribution, default scheme, cost of new hashes, needs_update, the three verify_and_update outcomes, fixed point of "
              "repeated logins, independence of the order in which the lazily built record caches were filled) is compared with an independent "
              "~200-line PolicyModel; costs come from an independent regular-expression field extractor, never from passlib's parsers.",
-        note="In a quarter of the runs the simulated host's crypt(3) knows none of the formats, so the pure-Python backends serve (elsewhere: this image's libcrypt). <=5 schemes from a 43-scheme cheap palette (incl. {CRYPT}- and bcrypt$-prefixed wrappers), given by name or (one of them, 20% of runs) as a pre-configured hasher object; the 'rounds' option and bcrypt_sha256's version option included, categories admin/staff (+ an unknown one), <=40 ops, well-formed configurations only. "
+        note="Imported legacy records include bcrypt '$2a$' hashes with stray padding bits (flagged by the scheme itself); needs_update also receives the record as bytes. In a quarter of the runs the simulated host's crypt(3) knows none of the formats, so the pure-Python backends serve (elsewhere: this image's libcrypt). <=5 schemes from a 43-scheme cheap palette (incl. {CRYPT}- and bcrypt$-prefixed wrappers), given by name or (one of them, 20% of runs) as a pre-configured hasher object; the 'rounds' option and bcrypt_sha256's version option included, categories admin/staff (+ an unknown one), <=40 ops, well-formed configurations only. "
              "Exact vary_rounds ranges are not modelled (only: inside window and hard limits). Trusted: PolicyModel (refmodels/policy.py), extractor.",
         design_ref="DESIGN.md section 4 and Appendix B, C04"),
     "C06": dict(
@@ -71,17 +71,17 @@ CHECKS = {
              "storage damages records and pushed through the login path -- identify, verify, needs_update, verify_and_update on the bare handler "
              "and on the context, as text and bytes. identify must answer without raising; everything else answers or raises ValueError/TypeError; "
              "if the original password still verifies, an independent extractor must decode the same cost, salt bits, digest bits and variant from "
-             "both strings (value-exact, spelling-lenient: hex case, padding bits, '=' padding, blanks/zero padding around decimals, bcrypt "
+             "both strings (value-exact; accepted spellings: hex case, padding bits, '=' padding at the end, the blanks / '+' / '_' the extractor's own decimal patterns allow, bcrypt "
              "2a/2b/2y, LDAP scheme-name case, and the two equivalences MS-SQL 2000 documents: only the upper-case digest takes part in "
-             "verification, and the record's first 54 characters are the MS-SQL 2005 hash of the same password). Thorough: every position x 12 substitute bytes, all deletions, duplications, insertions, truncations per record.",
+             "verification, and the record's first 54 characters are the MS-SQL 2005 hash of the same password). Damage kinds added in round 10: a letter pair replaced by the non-ASCII character that case-maps onto it (ligature ff, long s ...), the bytes a hexadecimal record spells handed over as bytes; the substitution / insertion alphabet holds newline, CR, TAB, '!', signs and non-ASCII digits. Thorough: every position x 21 substitute bytes, all deletions, duplications, insertions, truncations per record.",
         note="In a quarter of the runs the simulated host's crypt(3) knows none of the formats, so the pure-Python backends serve (elsewhere: this image's libcrypt). Bounded: palette formats only, single faults (15% cumulative); records whose damaged cost field asks for > ~30000 rounds / bcrypt cost > 8 are "
-             "counted but not pushed through verify. The closing clause of C08 (no other spelling of the same bits accepted) is deliberately not enforced.",
+             "counted but not pushed through verify. Known finding F39 (decimal fields read with int(): blanks, sign, non-ASCII digits) is printed as KNOWN-FINDING; the cause is established by re-spelling the numbers and re-extracting, any other altered string that verifies is a VIOLATION.",
         design_ref="DESIGN.md section 4 and Appendix C, C08"),
     "C09": dict(
         level="exploration",
         technique="deterministic simulation: seeded interleavings of several clients deriving and using hashers from the shared passlib.hash objects, random source pinned by the simulator, per-node sequential settings model + non-interference snapshots of every untouched hasher",
         text="2-4 simulated clients run interleaved programs against the same process-wide hasher objects: derive(node, settings, relaxed) "
-             "and derive-from-derived up to depth 4 (min/max/default/vary rounds and their aliases, rounds, salt_size, ident, version, block_size, "
+             "and derive-from-derived up to depth 4 (min/max/default/vary rounds and their aliases, rounds, salt_size, ident (text or bytes, alias or canonical spelling), version, block_size, "
              "parallelism, fshp variant in every documented spelling, truncate_error, marker; ints or strings; inside, at and beyond the hard limits), hash, needs_update on probe hashes "
              "below/at/inside/above the window, attribute writes on a client's own derived hasher, backend switches, use of the globals. With the "
              "random source pinned every hash is a deterministic string, so 'exactly as before' is compared bit for bit: before and after every "
@@ -105,7 +105,7 @@ CHECKS = {
              "a structural snapshot, and after each block the full snapshot (to_dict, to_string, schemes, defaults per category, context_kwds, "
              "identify / needs_update per category / verify right+wrong on probe hashes at low/middle/high cost, hash() under a pinned random "
              "source) must be identical. Export/import through dict, resolved dict, INI string (two sections), file and copy must preserve the "
-             "snapshot; update() must equal a rebuild from the merged dictionary.",
+             "snapshot; update() must equal a rebuild from the merged dictionary; the same valid or offending change applied as the VERY FIRST access to an unused LazyCryptContext (keywords or onload) and to an ordinary context of the same configuration must give the same answer and the same state. Exported configurations also carry settings that are neither costs nor salts (bcrypt_sha256 version, scrypt block_size / parallelism, unix_disabled marker with '%').",
         note="In a quarter of the runs the simulated host's crypt(3) knows none of the formats, so the pure-Python backends serve (elsewhere: this image's libcrypt). In 30% of the runs a scheme that takes the context keyword user= (postgres_md5, oracle10, cisco_pix) is configured and every probing call "
              "carries user=, which the context must keep filtering for the other schemes. "
              "Enumeration is complete per generated (configuration, change) within: <=5 schemes, <=2 categories, the 21 invalid-item kinds, 5 exception "
@@ -157,10 +157,10 @@ CHECKS = {
              "system, its mtime clock (granularity 1 ns .. 2 s, ticks below/above it, steps back), an external editor rewriting the file directly "
              "(between operations, or -- fault write_during_read -- while a load has consumed N bytes of the old content) "
              "and armed I/O faults are simulated; copies are saved to / loaded from a second path and objects are re-bound. After every operation the export (and after every save the file) is parsed by an independent "
-             "20-line reader and must equal the document model's users/hashes, each once, with untouched items in original order; return values, "
+             "20-line reader (also after accepting a name that collides with the file syntax, e.g. one that starts with '#': accepted means present in the export) and must equal the document model's users/hashes, each once, with untouched items in original order; return values, "
              "check_password answers, hash upgrade on deprecated schemes, refusal of invalid names, atomic load, intact memory after a failed "
              "save and the load_if_changed/mtime contract are checked.",
-        note="<=6 users x <=3 realms, 5 passwords, <=40 ops. Nothing is asserted about the content of a file torn by a failed save. Plaintext-scheme "
+        note="<=6 users x <=3 realms (in UTF-8 files also names that are not in Unicode normal form), 5 passwords, <=40 ops; refused names: separators, every ASCII control character, > 255 bytes (also 128 two-byte characters). Nothing is asserted about the content of a file torn by a failed save. Plaintext-scheme "
              "records only in UTF-8 files. Trusted: the independent reader/document model (refmodels/htfile.py).",
         design_ref="DESIGN.md section 4, C16"),
     "C18": dict(
@@ -174,7 +174,7 @@ CHECKS = {
              "owns a record is computed without the context (first configured scheme whose own identify() claims it) and the context's "
              "identify() is judged against it; 'verification against None costs a dummy verification' is observed deterministically as digest "
              "computations of the default scheme counted through a counting subclass given in schemes= (one per call, one more right after "
-             "construction or a policy (re)load). Weaker fit: disable/enable are string functions; the simulator supplies histories and the "
+             "construction or a policy (re)load); a scheme that takes a context keyword (postgres_md5, oracle10, msdcc, msdcc2) may join the live context, also as its default scheme -- verification against None stays False. Weaker fit: disable/enable are string functions; the simulator supplies histories and the "
              "counting seam.",
         note="In a quarter of the runs the simulated host's crypt(3) knows none of the formats, so the pure-Python backends serve (elsewhere: this image's libcrypt). Strings the attribution rule gives to another scheme than the grammar expects ('*' + 40 hex is also mysql41; everything is plaintext) "
              "are outside the model: mysql41 is not combined with disabled-account schemes, plaintext schemes are listed last only.",
@@ -183,7 +183,7 @@ CHECKS = {
         level="exploration",
         technique="deterministic simulation of real threads: seeded baton-passing scheduler pre-empting at sys.settrace line/opcode events (sticky walk, PCT, hot-spot, uniform, park-one-thread-mid-operation), fork-per-run fresh first-use state, cooperative locks; per-thread outcome vs single-thread outcome",
         text="Each run forks a process in which nothing has been used yet, builds one first-use object (LazyCryptContext with/without "
-             "onload or with an onload that fails once, a shipped preset, a multi-backend hasher (in 40% of these runs on a host whose crypt(3) knows none of the formats, so that the first candidate backend is tried and found unusable mid-selection and the pure-Python backends with their lazily built tables are the ones initialised; the same host in 30% of the context / registry / preset runs), a lazy base64 engine, an unloaded registry name, a context's record "
+             "onload or with an onload that fails once, a shipped preset, a multi-backend hasher (in 40% of these runs on a host whose crypt(3) knows none of the formats, so that the first candidate backend is tried and found unusable mid-selection and the pure-Python backends with their lazily built tables are the ones initialised; the same host in 30% of the context / registry / preset runs), a lazy base64 engine, an unloaded registry name, the pure-Python Blowfish engine (constant tables built on first use), a context's record "
              "caches, the digest-info cache, passlib.pwd's word sets, a libpass context, an application's own handler module registered by path "
              "together with a lazy PrefixWrapper around one of its handlers) or an initialised shared context with a "
              "non-reentrant crypt(3) model, and lets 2-3 real "
